@@ -2212,7 +2212,14 @@ def check_history(base: bytes, n: int, levels: list[bytes], ops: list[list], bla
         return [(f'call-that-must-be-rejected-is-accepted-{e}', f'lazy read, {ops}: the call {e} did not raise')]
     except Exception as e:
         if rejects:
-            return [(f'rejected-call-then-save-raises-{type(e).__name__}-{rejects[0]}', f'lazy read, {ops}, save: {type(e).__name__}: {e}')]
+            who = rejects[0]
+            idx = [i for i, op in enumerate(ops) if op[0] == 'reject']
+            if blame and len(idx) > 1:
+                for i in idx:       # the rejected call without which the history is fine
+                    if not check_history(base, n, levels, ops[:i] + ops[i + 1:], blame=False):
+                        who = ops[i][2]
+                        break
+            return [(f'rejected-call-then-save-raises-{type(e).__name__}-{who}', f'lazy read, {ops}, save: {type(e).__name__}: {e}')]
         return [(f'frame-history-raises-{type(e).__name__}', f'lazy read, {ops}, save: {type(e).__name__}: {e}')]
     first = None
     for alt in reject_alternatives(ops):
@@ -2341,6 +2348,83 @@ def corr_frames(ck: Ck, frame_ok: bool) -> None:
     if bad:
         ck.tie_broken.append('correspondence frame histories vs generated effect tables')
         ck.extra['frame_history_disagreement'] = bad[:5]
+
+
+REJECT_METHOD = {'copy_short': 'copy_from', 'copy_long': 'copy_from', 'copy_rgb_without_format': 'copy_from', 'copy_frame_of_other_size': 'copy_from',
+                 'copy_format_without_decoder': 'copy_from', 'copy_not_a_buffer': 'copy_from', 'rescale_from_unrelated_size': 'rescale_from',
+                 'setitem_out_of_range': '__setitem__', 'getitem_out_of_range': '__getitem__', 'setitem_three_values': '__setitem__',
+                 'setitem_channel_out_of_range': '__setitem__', 'setitem_channel_not_a_number': '__setitem__', 'fill_out_of_range': 'fill'}
+
+
+def observed_exit(seed: int, pre: str, m: int, which: str) -> tuple[str, tuple[str, bool, str]] | None:
+    """The abstract state (origin of _data, texels modified, file source) in which the implementation really leaves the frame
+    when the call is rejected, in the vocabulary of the raise tables; None when the call is not rejected."""
+    from srctools.vtf import VTF
+    base, n, levels = history_base(seed)
+    m = min(m, n - 1)
+    v = VTF.read(io.BytesIO(base))
+    fr = v.get(mipmap=m)
+    if pre == 'loaded':
+        fr.load()
+    elif pre == 'cleared':
+        fr.clear()
+    elif pre == 'rescaled':
+        if m == 0:
+            return None
+        fr.rescale_from(v.get(mipmap=m - 1))
+    d, s = fr._data is not None, fr._fileinfo is not None
+    old = bytes(fr._data) if d else None
+    try:
+        _do_reject(v, fr, m, which)
+    except Exception:     # noqa: BLE001 - not rejected / another exception: judged by reject_view_case
+        return None
+    blank = bytes((0, 0, 0, 255)) * (fr.width * fr.height)
+    now = bytes(fr._data) if fr._data is not None else None
+    if now is None:
+        dd = 'None'
+    elif d and now == old:
+        dd = 'Keep'
+    elif now == levels[m]:
+        dd = 'File'
+    elif now == blank:
+        dd = 'Blank'
+    else:
+        dd = 'Other'
+    mod = False
+    if dd == 'Other':
+        for ref, name in ((old, 'Keep'), (levels[m], 'File'), (blank, 'Blank')):
+            if ref is not None and sum(1 for i in range(0, len(now), 4) if now[i:i + 4] != ref[i:i + 4]) <= 2:
+                dd, mod = name, True
+                break
+    ss = 'None' if fr._fileinfo is None else 'Keep'
+    return f'{int(d)}{int(s)}', (dd, mod, ss)
+
+
+def corr_raise_tables(ck: Ck, side: dict) -> None:
+    """Correspondence for the exits by exception: the state in which the implementation leaves a frame after each rejected call,
+    for each of the four abstract pre-states, must be one of the exits the translator computed for that method and pre-state."""
+    tables = side.get('raise_tables', {})
+    bad = []
+    seen = 0
+    for pre in ('lazy', 'loaded', 'cleared', 'rescaled'):
+        for m in (0, 1):
+            for which, method in REJECT_METHOD.items():
+                obs = observed_exit(ck.seed, pre, m, which)
+                if obs is None:
+                    continue
+                row, out = obs
+                seen += 1
+                ck.count('raise_exit_observations')
+                ck.hist('raise_exit_observed', f'{method}:{row}:{out[0]}{"*" if out[1] else ""}/{out[2]}')
+                exits = [tuple(x) for x in tables.get(method, {}).get(row, [])]
+                if out not in exits:
+                    bad.append({'call': which, 'method': method, 'frame': pre, 'level': m, 'row': row, 'observed': list(out), 'exits_of_the_translator': [list(x) for x in exits]})
+    ck.obligation('correspondence:frame-raise-exits', not bad and seen > 0,
+                  f'{seen} rejected calls on frames in the four abstract states: the state in which the implementation leaves the frame is one of the '
+                  f'exits by exception the translator computed for that method and pre-state: {len(bad)} disagreements' + (f'; first {bad[0]}' if bad else ''))
+    if bad:
+        ck.tie_broken.append('correspondence raise exits vs generated raise tables')
+        ck.extra['raise_exit_disagreement'] = bad[:5]
 
 
 def search_rejected(ck: Ck) -> None:
@@ -2587,6 +2671,8 @@ def run(ck: Ck) -> None:
         _stage(ck, 'container-correspondence', corr_container, alarm=False)     # waits for coqc: no alarm, exceptions only
         codecs_done()
     _stage(ck, 'frame-histories', corr_frames, bool(built), alarm=False)
+    if ok3:
+        _stage(ck, 'raise-exit-correspondence', corr_raise_tables, ck.extra['translated']['VtfFrameSM_gen'])
     _stage(ck, 'rejected-call-search', search_rejected)
     _stage(ck, 'codec-search', search_codecs)
     _stage(ck, 'bounds-search', search_bounds)
@@ -2634,6 +2720,7 @@ def run(ck: Ck) -> None:
             ck.explain('instance:whole_array_')      # the copy between frames of different sizes happened (in part) before it was rejected
         if k.startswith(('rejected-call-', 'failed-load-', 'call-that-must-be-rejected')):
             ck.explain('instance:vtf_methods_other_than_init')
+            ck.explain('correspondence:frame-raise-exits')
             ck.explain('instance:frame_')
             ck.explain('instance:every_frame_method_keeps')
             ck.explain('translate:VtfFrameSM_gen')
